@@ -127,6 +127,10 @@ impl Stats {
         if conf.sched.hold {
             self.bump("sched_extra_points/on");
         }
+        if log.callers >= 2 {
+            self.bump("fault/concurrent_callers");
+            self.bump(&format!("callers/{}", log.callers));
+        }
         if log.extra_points > 0 {
             self.add("fault/preemption_point_in_critical_section_or_refcount", log.extra_points);
         }
@@ -492,12 +496,12 @@ pub fn minimise<L: Lane>(path: &str, out_path: &str, budget: usize) -> Result<Re
             let conf = &cur.confs[j];
             if !matches!(conf.sched.kind, SchedKind::OldestFirst) {
                 let mut c = cur.clone();
-                c.confs[j].sched = SchedSpec { kind: SchedKind::OldestFirst, seed: 0, hold: c.confs[j].sched.hold };
+                c.confs[j].sched = SchedSpec { kind: SchedKind::OldestFirst, seed: 0, hold: c.confs[j].sched.hold, callers: c.confs[j].sched.callers };
                 c.confs[j].trace = None;
                 cands.push(c);
                 if !matches!(conf.sched.kind, SchedKind::RoundRobin) {
                     let mut c = cur.clone();
-                    c.confs[j].sched = SchedSpec { kind: SchedKind::RoundRobin, seed: 0, hold: c.confs[j].sched.hold };
+                    c.confs[j].sched = SchedSpec { kind: SchedKind::RoundRobin, seed: 0, hold: c.confs[j].sched.hold, callers: c.confs[j].sched.callers };
                     c.confs[j].trace = None;
                     cands.push(c);
                 }
@@ -505,6 +509,12 @@ pub fn minimise<L: Lane>(path: &str, out_path: &str, budget: usize) -> Result<Re
             if conf.sched.hold {
                 let mut c = cur.clone();
                 c.confs[j].sched.hold = false;
+                c.confs[j].trace = None;
+                cands.push(c);
+            }
+            if conf.sched.callers >= 2 {
+                let mut c = cur.clone();
+                c.confs[j].sched.callers = if conf.sched.callers > 2 { 2 } else { 0 };
                 c.confs[j].trace = None;
                 cands.push(c);
             }
@@ -531,7 +541,7 @@ pub fn minimise<L: Lane>(path: &str, out_path: &str, budget: usize) -> Result<Re
             for cf in &mut c.confs {
                 cf.trace = None;
                 if matches!(cf.sched.kind, SchedKind::Trace) {
-                    cf.sched = SchedSpec { kind: SchedKind::OldestFirst, seed: 0, hold: cf.sched.hold };
+                    cf.sched = SchedSpec { kind: SchedKind::OldestFirst, seed: 0, hold: cf.sched.hold, callers: cf.sched.callers };
                 }
             }
             cands.push(c);
@@ -557,7 +567,7 @@ pub fn minimise<L: Lane>(path: &str, out_path: &str, budget: usize) -> Result<Re
     if let (Some(ci), Some(tr)) = (cur_v.conf_index, cur_v.trace.clone()) {
         if ci < cur.confs.len() {
             let mut pinned = cur.clone();
-            pinned.confs[ci].sched = SchedSpec { kind: SchedKind::Trace, seed: cur.confs[ci].sched.seed, hold: cur.confs[ci].sched.hold };
+            pinned.confs[ci].sched = SchedSpec { kind: SchedKind::Trace, seed: cur.confs[ci].sched.seed, hold: cur.confs[ci].sched.hold, callers: cur.confs[ci].sched.callers };
             pinned.confs[ci].trace = Some(tr);
             let vs = run_isolated::<L>(&pinned);
             if let Some(v) = same_violation(&vs, &want) {
@@ -576,12 +586,12 @@ pub fn minimise<L: Lane>(path: &str, out_path: &str, budget: usize) -> Result<Re
             let try_prefix = |k: usize, tries: &mut usize| -> Option<(Scenario<L::Body>, Violation)> {
                 *tries += 1;
                 let mut c = cur.clone();
-                c.confs[ci].sched = SchedSpec { kind: SchedKind::TracePrefix, seed: cur.confs[ci].sched.seed, hold: cur.confs[ci].sched.hold };
+                c.confs[ci].sched = SchedSpec { kind: SchedKind::TracePrefix, seed: cur.confs[ci].sched.seed, hold: cur.confs[ci].sched.hold, callers: cur.confs[ci].sched.callers };
                 c.confs[ci].trace = Some(tr[..k].to_vec());
                 let v = same_violation(&run_isolated::<L>(&c), &want)?;
                 // pin what was actually executed
                 let mut pinned = c.clone();
-                pinned.confs[ci].sched = SchedSpec { kind: SchedKind::Trace, seed: cur.confs[ci].sched.seed, hold: cur.confs[ci].sched.hold };
+                pinned.confs[ci].sched = SchedSpec { kind: SchedKind::Trace, seed: cur.confs[ci].sched.seed, hold: cur.confs[ci].sched.hold, callers: cur.confs[ci].sched.callers };
                 pinned.confs[ci].trace = v.trace.clone();
                 let v2 = same_violation(&run_isolated::<L>(&pinned), &want)?;
                 Some((pinned, v2))
